@@ -122,12 +122,25 @@ def header_from_cfg(cfg):
     return {"fs": fs, "ms": ms, "pl": pl, "hl": hl, "w": w, "comps": comps, "p0s": p0s}
 
 
-def generate(n, seed, kinds=("fshock", "mistake", "plimit", "halt", "index", "mixed")):
+def lengthen(cfg, rng):
+    """stretch one session so that the run crosses a 100-step generation / storage chunk after the events fired"""
+    sess = cfg["simulation"]["sessions"]
+    sess[-1]["iterationSteps"] = rng.choice([105, 130])
+    sess[-1]["maxNormalOrders"] = 1
+    sess[-1]["maxHighFrequencyOrders"] = 0
+    cfg["N"]["numAgents"] = 2
+    cfg["N"]["script"] = dict(cfg["N"]["script"], pEmpty=0.7, maxBatch=1)
+    return cfg
+
+
+def generate(n, seed, kinds=("fshock", "mistake", "plimit", "halt", "index", "mixed"), long_every=25):
     rng = random.Random(sub_seed(seed, "event-configs"))
     runs = []
     for i in range(n):
         kind = kinds[i % len(kinds)]
         cfg = make(rng, kind)
+        if kind in ("fshock", "index") and i % long_every == 0:
+            cfg = lengthen(cfg, rng)
         r = drive_run.execute(cfg, rng.randrange(2 ** 31))
         r["src"] = "events:" + kind
         r["evhdr"] = header_from_cfg(cfg)
